@@ -191,6 +191,27 @@ Lemma esp_mid_sum : forall x y s, esp_mid x -> esp_mid y ->
   (s = 0 \/ Z.min x y - 1074 <= s <= Z.max x y + 1024)%Z -> in_long s.
 Proof. intros x y s Hx Hy H. unfold esp_mid, in_long, LONG_MIN, LONG_MAX in *. lia. Qed.
 
+(* ---- the DPE comparisons on normalised operands, in the form used below (variables only: cheap to apply) *)
+Lemma dpe_lt_true : forall x y, normalised x -> normalised y -> in_long (esp x) -> in_long (esp y) ->
+  rdpe_lt x y = true -> rval x < rval y.
+Proof. intros x y Nx Ny Lx Ly H. apply (order_correct OLt x y Nx Ny Lx Ly). exact H. Qed.
+Lemma dpe_ge_false : forall x y, normalised x -> normalised y -> in_long (esp x) -> in_long (esp y) ->
+  rdpe_ge x y = false -> rval x < rval y.
+Proof.
+  intros x y Nx Ny Lx Ly H. destruct (Rlt_le_dec (rval x) (rval y)) as [|C]; [assumption|exfalso].
+  assert (K : ord_R OGe (rval x) (rval y)) by (simpl; lra).
+  apply (order_correct OGe x y Nx Ny Lx Ly) in K. change (rdpe_ord OGe x y) with (rdpe_ge x y) in K. rewrite K in H. discriminate.
+Qed.
+Lemma dpe_le_iff : forall x y, normalised x -> normalised y -> in_long (esp x) -> in_long (esp y) ->
+  (rdpe_le x y = true <-> rval x <= rval y).
+Proof. intros x y Nx Ny Lx Ly. exact (order_correct OLe x y Nx Ny Lx Ly). Qed.
+Lemma dpe_ge_iff : forall x y, normalised x -> normalised y -> in_long (esp x) -> in_long (esp y) ->
+  (rdpe_ge x y = true <-> rval y <= rval x).
+Proof.
+  intros x y Nx Ny Lx Ly. pose proof (order_correct OGe x y Nx Ny Lx Ly) as K. simpl in K.
+  change (rdpe_ord OGe x y) with (rdpe_ge x y) in K. rewrite K. split; lra.
+Qed.
+
 (* ---- everything the code computes, with its error, and the meaning of its comparisons *)
 Lemma dtouch_unit_facts : forall (n : Z) (r : rdpe) (z : cdpe),
   (1 <= n < 2 ^ 31)%Z -> normalised r -> 0 <= rval r -> (Z.abs (esp r) <= 2 ^ 60)%Z ->
@@ -226,13 +247,10 @@ Proof.
   split; [|split].
   - intro H. unfold dtouch_unit in H. fold ab rad in H. unfold rdpe_add_d in H. fold one' in H.
     destruct (rdpe_lt (rdpe_add rad one') ab) eqn:C1.
-    + left. apply (order_correct OLt _ _ NT1 Nab LT1 Lab) in C1. exact C1.
-    + right. destruct (Rlt_le_dec (rval (rdpe_add rad ab)) 1) as [|C]; [assumption|exfalso].
-      assert (K : ord_R OGe (rval (rdpe_add rad ab)) (rval rdpe_one)) by (simpl; rewrite V1; lra).
-      apply (order_correct OGe _ _ NT2 N1 LT2 L1) in K. change (rdpe_ord OGe) with rdpe_ge in K. rewrite K in H. discriminate.
-  - pose proof (order_correct OLe ab rdpe_one Nab N1 Lab L1) as K. simpl in K. rewrite V1 in K. exact K.
-  - pose proof (order_correct OGe ab rdpe_one Nab N1 Lab L1) as K. simpl in K. rewrite V1 in K.
-    change (rdpe_ord OGe) with rdpe_ge in K. rewrite K. split; lra.
+    + left. exact (dpe_lt_true _ _ NT1 Nab LT1 Lab C1).
+    + right. pose proof (dpe_ge_false _ _ NT2 N1 LT2 L1 H) as K. rewrite V1 in K. exact K.
+  - pose proof (dpe_le_iff ab rdpe_one Nab N1 Lab L1) as K. rewrite V1 in K. exact K.
+  - pose proof (dpe_ge_iff ab rdpe_one Nab N1 Lab L1) as K. rewrite V1 in K. exact K.
 Qed.
 
 Lemma nu_small : forall n : Z, (1 <= n < 2 ^ 31)%Z -> forall r : R, 0 <= r -> IZR n * r * u53 <= r / 1048576.
@@ -298,6 +316,136 @@ Proof.
     + apply (bool_of_iff_false _ _ SL). lra.
     + apply SG. lra.
   - right. split; [lra|]. split.
+    + apply SL. lra.
+    + apply (bool_of_iff_false _ _ SG). lra.
+Qed.
+
+(* ================================================================ the repaired test (fixes/C08_dunit_allowance.patch)
+   rdpe_add_d (eps, ab, 1.0); rdpe_mul_eq_d (eps, 8 * DBL_EPSILON); rdpe_add_eq (rad, eps);  before the two comparisons.
+   `no touch' now implies n * r < | |z| - 1 | EXACTLY, for every factor n >= 1, every normalised radius and centre, and the
+   side tests name the side. *)
+Lemma f_allow_facts : is_finite f_allow = true /\ B2R f_allow = 16 * u53 /\ bpow radix2 (-64) <= B2R f_allow <= bpow radix2 31.
+Proof.
+  assert (V : B2R f_allow = bpow radix2 (-49)).
+  { unfold f_allow, B2R, F2R. cbn [Fnum Fexp cond_Zopp]. change (IZR 4503599627370496) with (bpow radix2 52).
+    rewrite <- bpow_plus. reflexivity. }
+  split; [reflexivity|]. split.
+  - rewrite V. unfold u53. change (-49)%Z with (4 + -53)%Z. rewrite bpow_plus. change (bpow radix2 4) with 16. reflexivity.
+  - rewrite V. split; apply bpow_le; lia.
+Qed.
+
+Lemma abs_sum_bound : forall x y s B : Z, (Z.abs x <= B)%Z -> (Z.abs y <= B)%Z ->
+  (s = 0 \/ Z.min x y - 1074 <= s <= Z.max x y + 1024)%Z -> (Z.abs s <= B + 1074)%Z.
+Proof. intros. lia. Qed.
+
+Lemma esp_mid_of_abs : forall e : Z, (Z.abs e <= 2 ^ 60 + 10000)%Z -> esp_mid e /\ (LONG_MIN + 3000 <= e <= LONG_MAX - 3000)%Z.
+Proof. intros e H. change (2 ^ 60)%Z with 1152921504606846976%Z in H. unfold esp_mid, LONG_MIN, LONG_MAX. lia. Qed.
+
+Lemma dtouch_unit_fixed_facts : forall (n : Z) (r : rdpe) (z : cdpe),
+  (1 <= n < 2 ^ 31)%Z -> normalised r -> 0 <= rval r -> (Z.abs (esp r) <= 2 ^ 60)%Z ->
+  cnormalised z -> csmall z ->
+  exists Rd A S E R' T1 T2 : R,
+    0 <= Rd /\ IZR n * rval r * (1 - u53) - 0 <= Rd /\ 0 <= A /\
+    Rabs (A - zmod z) <= 6 * u53 * zmod z + 0 /\
+    (A + 1) * (1 - 2 * u53) <= S /\ 16 * u53 * S * (1 - 2 * u53) <= E /\
+    (Rd + E) * (1 - 2 * u53) <= R' /\ (R' + 1) * (1 - 2 * u53) <= T1 /\ (R' + A) * (1 - 2 * u53) <= T2 /\
+    (dtouch_unit_fixed n r z = false -> T1 < A \/ T2 < 1) /\
+    (rdpe_le (cdpe_mod z) rdpe_one = true <-> A <= 1) /\ (rdpe_ge (cdpe_mod z) rdpe_one = true <-> 1 <= A).
+Proof.
+  intros n r z Hn Nr Hr0 Her Nz Sz.
+  assert (HDec : dtouch_unit_fixed n r z = false ->
+     rdpe_lt (rdpe_add (rdpe_add_eq (rdpe_mul_d r (f_of_Z n)) (rdpe_mul_d (rdpe_add (cdpe_mod z) (rdpe_set_d fone)) f_allow))
+                       (rdpe_set_d fone)) (cdpe_mod z) = true \/
+     rdpe_ge (rdpe_add (rdpe_add_eq (rdpe_mul_d r (f_of_Z n)) (rdpe_mul_d (rdpe_add (cdpe_mod z) (rdpe_set_d fone)) f_allow))
+                       (cdpe_mod z)) rdpe_one = false).
+  { unfold dtouch_unit_fixed, rdpe_add_d. cbv zeta. destruct (rdpe_lt _ _); intro H; [left; reflexivity|right; exact H]. }
+  assert (Her' : (LONG_MIN + 3000 <= esp r <= LONG_MAX - 3000)%Z).
+  { change (2 ^ 60)%Z with 1152921504606846976%Z in Her. unfold LONG_MIN, LONG_MAX. lia. }
+  destruct (f_of_Z_correct n) as (Vn & Fn & _). { lia. }
+  assert (Bn : bpow radix2 (-64) <= B2R (f_of_Z n) <= bpow radix2 31).
+  { rewrite Vn. split.
+    - apply Rle_trans with 1; [change 1 with (bpow radix2 0); apply bpow_le; lia|apply IZR_le; lia].
+    - change (bpow radix2 31) with (IZR (2 ^ 31)). apply IZR_le; lia. }
+  destruct (mul_d_gen (f_of_Z n) r Fn Bn Nr Hr0 Her') as (Nrad & _ & Prad & Erad & Xrad). rewrite Vn in Erad.
+  destruct (cmod_spec z Nz Sz) as (Nab & Mab & Pz & Pab & Eab & Xab).
+  destruct rdpe_one_facts as (N1 & V1 & M1). destruct set_d_one_facts as (N1' & V1' & M1').
+  set (one' := rdpe_set_d fone) in *.
+  set (rad0 := rdpe_mul_d r (f_of_Z n)) in *. set (ab := cdpe_mod z) in *.
+  assert (X1' : (Z.abs (esp one') <= 2 ^ 60 + 3)%Z).
+  { assert (E : esp one' = 1%Z) by (vm_compute; reflexivity). rewrite E. change (2 ^ 60)%Z with 1152921504606846976%Z. lia. }
+  pose proof u53_pos as U. pose proof u53_small as U2.
+  (* S = ab + 1 *)
+  destruct (add_rel ab one' Nab N1' Mab M1') as (NS & RS & _ & ES).
+  pose proof (abs_sum_bound _ _ _ _ Xab X1' ES) as XS.
+  set (Sd := rdpe_add ab one') in *.
+  assert (PS : 0 <= rval Sd).
+  { unfold rel_e in RS. rewrite V1' in RS. rewrite (Rabs_pos_eq (rval ab + 1)) in RS by lra. apply Rabs_le_inv in RS.
+    assert (2 * u53 * (rval ab + 1) <= / 2 * (rval ab + 1)) by (apply Rmult_le_compat_r; lra). lra. }
+  destruct (esp_mid_of_abs (esp Sd) ltac:(lia)) as (MS & HS).
+  (* E = S * 2^-49 *)
+  destruct f_allow_facts as (Fa & Va & Ba).
+  destruct (mul_d_gen f_allow Sd Fa Ba NS PS HS) as (NE & _ & PE & EE & XE). rewrite Va in EE.
+  set (Ed := rdpe_mul_d Sd f_allow) in *.
+  assert (XE' : (Z.abs (esp Ed) <= 2 ^ 60 + 3 + 1074 + 1074)%Z) by lia.
+  assert (Xrad' : (Z.abs (esp rad0) <= 2 ^ 60 + 3 + 1074 + 1074)%Z) by lia.
+  destruct (esp_mid_of_abs (esp Ed) ltac:(lia)) as (ME & _).
+  destruct (esp_mid_of_abs (esp rad0) ltac:(lia)) as (Mrad & _).
+  (* rad = rad0 + E *)
+  destruct (add_eq_rel rad0 Ed Nrad NE Mrad ME) as (NR & RR & _ & ER).
+  pose proof (abs_sum_bound _ _ _ _ Xrad' XE' ER) as XR.
+  set (rad := rdpe_add_eq rad0 Ed) in *.
+  destruct (esp_mid_of_abs (esp rad) ltac:(lia)) as (MR & _).
+  assert (PR : 0 <= rval rad).
+  { unfold rel_e in RR. rewrite (Rabs_pos_eq (rval rad0 + rval Ed)) in RR by lra. apply Rabs_le_inv in RR.
+    assert (2 * u53 * (rval rad0 + rval Ed) <= / 2 * (rval rad0 + rval Ed)) by (apply Rmult_le_compat_r; lra). lra. }
+  (* the two sums *)
+  destruct (add_rel rad one' NR N1' MR M1') as (NT1 & RT1 & _ & ET1).
+  destruct (add_rel rad ab NR Nab MR Mab) as (NT2 & RT2 & _ & ET2).
+  pose proof (esp_mid_sum _ _ _ MR M1' ET1) as LT1. pose proof (esp_mid_sum _ _ _ MR Mab ET2) as LT2.
+  exists (rval rad0), (rval ab), (rval Sd), (rval Ed), (rval rad), (rval (rdpe_add rad one')), (rval (rdpe_add rad ab)).
+  split; [exact Prad|]. split.
+  { apply Rabs_le_inv in Erad. lra. }
+  split; [exact Pab|]. split.
+  { assert (0 <= u53 * zmod z) by (apply Rmult_le_pos; lra). lra. }
+  split.
+  { unfold rel_e in RS. rewrite V1' in RS. rewrite (Rabs_pos_eq (rval ab + 1)) in RS by lra. apply Rabs_le_inv in RS. lra. }
+  split.
+  { apply Rabs_le_inv in EE. assert (0 <= u53 * (16 * u53 * rval Sd)) by (apply Rmult_le_pos; [lra|apply Rmult_le_pos; lra]). lra. }
+  split.
+  { unfold rel_e in RR. rewrite (Rabs_pos_eq (rval rad0 + rval Ed)) in RR by lra. apply Rabs_le_inv in RR. lra. }
+  split.
+  { unfold rel_e in RT1. rewrite V1' in RT1. rewrite (Rabs_pos_eq (rval rad + 1)) in RT1 by lra. apply Rabs_le_inv in RT1. lra. }
+  split.
+  { unfold rel_e in RT2. rewrite (Rabs_pos_eq (rval rad + rval ab)) in RT2 by lra. apply Rabs_le_inv in RT2. lra. }
+  assert (Lab : in_long (esp ab)) by (apply esp_mid_long; exact Mab).
+  assert (L1 : in_long (esp rdpe_one)) by (apply esp_mid_long; exact M1).
+  split; [|split].
+  - intro H. destruct (HDec H) as [C1|C2].
+    + left. exact (dpe_lt_true _ _ NT1 Nab LT1 Lab C1).
+    + right. pose proof (dpe_ge_false _ _ NT2 N1 LT2 L1 C2) as K. rewrite V1 in K. exact K.
+  - pose proof (dpe_le_iff ab rdpe_one Nab N1 Lab L1) as K. rewrite V1 in K. exact K.
+  - pose proof (dpe_ge_iff ab rdpe_one Nab N1 Lab L1) as K. rewrite V1 in K. exact K.
+Qed.
+
+Theorem dtouch_unit_fixed_sound : forall (n : Z) (r : rdpe) (z : cdpe),
+  (1 <= n < 2 ^ 31)%Z -> normalised r -> 0 <= rval r -> (Z.abs (esp r) <= 2 ^ 60)%Z ->
+  cnormalised z -> csmall z ->
+  dtouch_unit_fixed n r z = false ->
+  (IZR n * rval r + 1 < zmod z /\ rdpe_le (cdpe_mod z) rdpe_one = false /\ rdpe_ge (cdpe_mod z) rdpe_one = true) \/
+  (zmod z + IZR n * rval r < 1 /\ rdpe_le (cdpe_mod z) rdpe_one = true /\ rdpe_ge (cdpe_mod z) rdpe_one = false).
+Proof.
+  intros n r z Hn Nr Hr0 Her Nz Sz H.
+  destruct (dtouch_unit_fixed_facts n r z Hn Nr Hr0 Her Nz Sz)
+    as (Rd & A & S & E & R' & T1 & T2 & R0 & ER & A0 & EA & ES & EE & ER' & ET1 & ET2 & HD & SL & SG).
+  assert (U : 0 < u53 <= / 1048576) by (rewrite u53_eq; lra).
+  assert (N0 : 0 <= IZR n * rval r) by (apply Rmult_le_pos; [apply IZR_le; lia|assumption]).
+  assert (Eta : 0 <= 0 <= u53 * u53) by (split; [lra|apply Rmult_le_pos; lra]).
+  destruct (unit_dec_real_fixed u53 0 (IZR n * rval r) (zmod z) Rd A S E R' T1 T2 U Eta N0 (sqrt_pos _) A0 R0 ER EA ES EE ER' ET1 ET2 (HD H))
+    as [[K1 K2]|[K1 K2]].
+  - left. split; [exact K1|]. split.
+    + apply (bool_of_iff_false _ _ SL). lra.
+    + apply SG. lra.
+  - right. split; [exact K1|]. split.
     + apply SL. lra.
     + apply (bool_of_iff_false _ _ SG). lra.
 Qed.
